@@ -152,3 +152,32 @@ func VerifC14_IndexRetry() {
 		verifSameIndex(idx, back, "index fetched after retries")
 	}
 }
+
+// VerifC04_IndexWriteFault_E: the write that carries the index to a local index store fails
+// (whole, or after a prefix of any length was accepted): StoreIndex then reports the failure -
+// a nil result means the file holds the complete encoding.  (engine-only: fault injection)
+func VerifC04_IndexWriteFault_E() {
+	n := vChoose("chunks", 3)
+	idx := verifSymIndex(n)
+	verifDigestFor(idx.Index.FeatureFlags)
+	dir := vTempDir()
+	ls, err := NewLocalIndexStore(dir)
+	vAssert(err == nil, "local index store")
+	var want bytes.Buffer
+	idx.WriteTo(&want)
+	switch vChoose("fault", 3) {
+	case 0:
+		vFSFault("write", 0)
+	case 1:
+		vFSShortWrite(0, vChoose("bytes-accepted", want.Len()))
+	case 2: // no fault (control)
+	}
+	err = ls.StoreIndex("a.caibx", idx)
+	vCover("store-returned")
+	if err == nil {
+		got, rerr := ioutil.ReadFile(dir + "/a.caibx")
+		vAssert(rerr == nil && vEqBytes(got, want.Bytes()), "StoreIndex reported success but the file does not hold the complete index (write error lost?)")
+	} else {
+		vCover("fault-reported")
+	}
+}
